@@ -240,7 +240,8 @@ fn run_refresh(ttl: u32, answer_mask: u32, trace: bool) -> CaseResult {
 const GAPS: [u64; 6] = [0, 500, 1000, 1001, 2000, 3000];
 
 fn run_flush(x: &[u64], trace: bool) -> CaseResult {
-    // x = [gap1, f1, f2, other_intf2, third (0 none, 1 same burst as 2nd +300ms, 2 later +1500), f3]
+    // x = [gap1, f1, f2, other_intf2, third (0 none, 1 same burst as 2nd +300ms, 2 later +1500), f3,
+    //      family of the 2nd record (0 A, 1 AAAA), family of the 3rd]
     let mut res = CaseResult::default();
     let mut w = World::one(lay_two());
     w.trace = trace;
@@ -251,61 +252,66 @@ fn run_flush(x: &[u64], trace: bool) -> CaseResult {
     w.poke(0);
     w.advance(50);
     let host = n("h.local");
-    let mk = |ip: u8, fl: bool| {
-        let mut r = a(&host, [10, 0, 0, ip], 120);
+    let addr_of = |ip: u8, v6: bool| -> std::net::IpAddr {
+        if v6 { format!("fd00::{ip}").parse().unwrap() } else { ip4([10, 0, 0, ip]) }
+    };
+    let mk = |ip: u8, fl: bool, v6: bool| {
+        let mut r = if v6 { aaaa(&host, format!("fd00::{ip}").parse().unwrap(), 120) } else { a(&host, [10, 0, 0, ip], 120) };
         r.flush = fl;
         build(&response(vec![r]))
     };
-    // arrivals: (time, ip, flush, interface)
-    let mut arr: Vec<(u64, u8, bool, u32)> = vec![];
+    let (fam2, fam3) = (x[6] == 1, x[7] == 1);
+    // arrivals: (time, ip, flush, interface, AAAA?)
+    let mut arr: Vec<(u64, u8, bool, u32, bool)> = vec![];
     let t1 = w.now;
-    arr.push((t1, 11, x[1] == 1, IF0));
-    w.deliver(0, IF0, PEER0, mk(11, x[1] == 1));
+    arr.push((t1, 11, x[1] == 1, IF0, false));
+    w.deliver(0, IF0, PEER0, mk(11, x[1] == 1, false));
     w.advance(GAPS[x[0] as usize]);
     let if2 = if x[3] == 1 { IF1 } else { IF0 };
     let src2 = if x[3] == 1 { PEER1 } else { PEER0 };
-    arr.push((w.now, 12, x[2] == 1, if2));
-    w.deliver(0, if2, src2, mk(12, x[2] == 1));
+    arr.push((w.now, 12, x[2] == 1, if2, fam2));
+    w.deliver(0, if2, src2, mk(12, x[2] == 1, fam2));
     if x[4] > 0 {
         w.advance(if x[4] == 1 { 300 } else { 1500 });
-        arr.push((w.now, 13, x[5] == 1, if2));
-        w.deliver(0, if2, src2, mk(13, x[5] == 1));
+        arr.push((w.now, 13, x[5] == 1, if2, fam3));
+        w.deliver(0, if2, src2, mk(13, x[5] == 1, fam3));
     }
     let end = w.now + 6000;
     w.run_until(end);
-    // reference: when is each address displaced?
-    let mut want_removed: Vec<(u8, Option<u64>)> = vec![];
-    for (k, (tk, ip, _, ifk)) in arr.iter().enumerate() {
+    // reference: when is each address displaced?  Only by a later cache-flush record of the same
+    // name AND type, learned on the same interface, more than one second after it.
+    let mut want_removed: Vec<(std::net::IpAddr, Option<u64>)> = vec![];
+    for (k, (tk, ip, _, ifk, famk)) in arr.iter().enumerate() {
         let mut cut: Option<u64> = None;
-        for (tj, _, fj, ifj) in arr.iter().skip(k + 1) {
-            if *fj && ifj == ifk && *tj > *tk + 1000 {
+        for (tj, _, fj, ifj, famj) in arr.iter().skip(k + 1) {
+            if *fj && ifj == ifk && famj == famk && *tj > *tk + 1000 {
                 let c = tj + 1000;
                 cut = Some(cut.map_or(c, |x: u64| x.min(c)));
             }
         }
-        want_removed.push((*ip, cut));
+        want_removed.push((addr_of(*ip, *famk), cut));
     }
     let evs = hevs(&w, 0, ch, 0);
-    for (ip, cut) in want_removed {
-        let addr = ip4([10, 0, 0, ip]);
+    for (addr, cut) in want_removed {
+        let ip = addr;
         let removed_at: Vec<u64> = evs
             .iter()
             .filter(|(_, e)| matches!(e, HEv::Removed(_, v) if v.iter().any(|a| a.ip == addr)))
             .map(|(t, _)| *t)
             .collect();
-        let ctx = format!("arrivals {:?}", arr.iter().map(|(t, ip, f, i)| (t - T0, ip, f, i)).collect::<Vec<_>>());
+        let ctx = format!("arrivals (time, ip, flush, interface, AAAA) {:?}", arr.iter().map(|(t, ip, f, i, v6)| (t - T0, ip, f, i, v6)).collect::<Vec<_>>());
         match cut {
             Some(c) => {
                 res.count("displacements_expected", 1);
                 if removed_at != vec![c] {
-                    res.viols.push(viol("C11|S|flushed-address-not-removed-one-second-after-the-flush", format!("10.0.0.{ip}: removed at {:?}, expected +{}; {ctx}", removed_at.iter().map(|t| t - T0).collect::<Vec<_>>(), c - T0)));
+                    res.viols.push(viol("C11|S|flushed-address-not-removed-one-second-after-the-flush", format!("{ip}: removed at {:?}, expected +{}; {ctx}", removed_at.iter().map(|t| t - T0).collect::<Vec<_>>(), c - T0)));
                 }
             }
             None => {
                 res.count("kept_expected", 1);
                 if !removed_at.is_empty() {
-                    let why = if arr.iter().any(|(_, _, f, _)| *f) { "same-burst-or-other-interface-or-self" } else { "no-flush-at-all" };
-                    res.viols.push(viol(format!("C11|S|address-removed-although-not-displaced|{why}"), format!("10.0.0.{ip}: removed at {:?}; {ctx}", removed_at.iter().map(|t| t - T0).collect::<Vec<_>>())));
+                    let why = if arr.iter().any(|(_, _, f, _, _)| *f) { "same-burst-or-other-interface-or-other-type-or-self" } else { "no-flush-at-all" };
+                    res.viols.push(viol(format!("C11|S|address-removed-although-not-displaced|{why}"), format!("{ip}: removed at {:?}; {ctx}", removed_at.iter().map(|t| t - T0).collect::<Vec<_>>())));
                 }
             }
         }
@@ -364,10 +370,10 @@ pub fn check(tier: &str) -> i32 {
     };
     rep.run_part(&refresh, Duration::from_secs(300));
 
-    let dims = [GAPS.len() as u64, 2, 2, 2, 3, 2];
+    let dims = [GAPS.len() as u64, 2, 2, 2, 3, 2, 2, 2];
     let flush = FnPart {
         name: "S-cache-flush".into(),
-        rule: "hostname resolver; 2-3 address records of one name arrive with gaps {0, 500, 1000, 1001, 2000, 3000} ms, flush bit on each either way, second/third on the same or another interface; AddressesRemoved compared with the displacement rule".into(),
+        rule: "hostname resolver; 2-3 address records of one name arrive with gaps {0, 500, 1000, 1001, 2000, 3000} ms, flush bit on each either way, second/third on the same or another interface and of the same type (A) or the other (AAAA); AddressesRemoved compared with the displacement rule".into(),
         n: product(&dims),
         describe: Box::new(move |i| format!("{:?}", unrank(i, &dims))),
         run: Box::new(move |i, tr| run_flush(&unrank(i, &dims), tr)),
